@@ -57,12 +57,15 @@ def _model(E, w):
 PRE_KO = set()      # genes the user knocked out before the analysis on the current path
 
 
+NO_OBJ = [False]
+
+
 def _oracle(E, m, zeroed, direction, tag):
     lp = fba_lp(m, tag=tag)
     for rid in zeroed:
         lp.lb[rid] = 0
         lp.ub[rid] = 0
-    return lp.optimum(E, {"DM_B": 1}, direction, name=tag), lp
+    return lp.optimum(E, ({} if NO_OBJ[0] else {"DM_B": 1}), direction, name=tag), lp
 
 
 def _zeroed_by_genes(absent):
@@ -109,7 +112,7 @@ W_THOROUGH = (("EX_A", "R1"), ("R2", "DM_B"), ("EX_A", "R1", "DM_B"))
 def c06_single(E, w=W_QUICK):
     m, ids, direction = _model(E, w)
     entity = E.pick("entity", ["reaction", "gene"])
-    shape = E.pick("list", ["None", "objects-partial", "ids-partial", "ids-repeated"])
+    shape = E.pick("list", ["None", "objects-partial", "ids-partial", "ids-repeated", "empty"])
     pool = ids if entity == "reaction" else GENES
     dl = m.reactions if entity == "reaction" else m.genes
     if shape == "None":
@@ -120,6 +123,8 @@ def c06_single(E, w=W_QUICK):
     elif shape == "ids-partial":
         want = [pool[1], pool[3]]
         arg = list(want)
+    elif shape == "empty":
+        want, arg = [], []          # nothing requested: no rows
     else:
         want = [pool[1], pool[1], pool[0]]
         arg = list(want)
@@ -175,6 +180,13 @@ def c06_essential(E, w=W_QUICK):
         return
     entity = E.pick("entity", ["reaction", "gene"])
     thr_kind = E.pick("threshold", ["default", "1/2"])
+    if E.flag("model_without_objective"):
+        # nothing to optimise: growth is 0 everywhere, the default threshold is 0, essential = infeasible knock-outs only
+        from optlang.symbolics import Zero
+        m.objective = m.problem.Objective(Zero, sloppy=True)
+        NO_OBJ[0] = True
+    else:
+        NO_OBJ[0] = False
     (st, opt, _, _), _lp = _oracle(E, m, [], direction, "wild")
     if st != "optimal":
         return
